@@ -1579,7 +1579,15 @@ class Generator:
             if not p.get('name'): em.names[p['id']] = f"_unnamed{i}"
         sig = self.signature(f)
         lines = [f"/* {f.q} : {f.type_str} */", sig]
-        if em.spec: lines += self.tag_lines(em.spec, em.spec.contract)
+        if em.spec:
+            # VERIF_ARGn in a contract stands for the n-th parameter (so table-generated specs do not depend on parameter names)
+            def sub_args(sl):
+                t = str(sl)
+                for i, p in enumerate(f.params, 1):
+                    t = re.sub(r'\bVERIF_ARG%d\b' % i, p.get('name') or f"_unnamed{i-1}", t)
+                if 'VERIF_ARG' in t: raise SystemExit(f"cxx2c: spec {f.cname}: VERIF_ARGn beyond the parameter list (extraction break)")
+                return SpecLine(t, sl.path, sl.line, sl.tags)
+            lines += [sub_args(x) for x in self.tag_lines(em.spec, em.spec.contract)]
         body = []
         if f.kind == 'CXXConstructorDecl':
             body += self.ctor_inits(em, f)
